@@ -15,7 +15,8 @@
 EXTENDS Naturals, Integers, Sequences, FiniteSets, SequencesExt, TLC
 
 CONSTANTS
-    Assocs,      \* <<[addr, rt, dis, integ, en, tsync, rmin, rmax, ka, ovfInteg, evscan, maxq]>> association configs
+    Assocs,      \* <<[addr, rt, dis, integ, en, tsync, rmin, rmax, ka, ovfInteg, evscan, maxq, clock]>> association configs
+                 \* (clock: the application can tell the time)
     DEVM         \* deviations of the master switched on
 
 NA == Len(Assocs)
@@ -207,7 +208,11 @@ StartTask(s, a, task) ==
         s0 == [s EXCEPT !.prio = IF "H_NoRotate" \in DEVM THEN @ ELSE MoveLast(@, a)]
         s1 == [s0 EXCEPT !.A[a].seq = S16(@ + 1)]
         s2 == Cb(s1, MkCb(s.now, "ai", "task_start", <<Addr(a), FcOf(task), seq>>, TaskName(task)))
-    IN IF task.t = "link"
+    IN IF task.t = "time" /\ ~Assocs[a].clock
+         \* TimeSyncTask::start: no system time (AssociationHandler::get_current_time returns None): the task is
+         \* cancelled before anything is sent and the scheduler goes on with the next one
+         THEN (IF task.id = 0 THEN AutoFailure(s, a, "time") ELSE Done(s, task.id, "SystemTimeNotAvailable"))
+       ELSE IF task.t = "link"
          THEN [s0 EXCEPT !.pc = "Await", !.cur = [a |-> a, task |-> task, seq |-> 0, first |-> TRUE,
                                                   deadline |-> s.now + Assocs[a].rt, fc0 |-> 0, t0 |-> s.now],
                          !.otx = Append(@, [t |-> s.now, fc |-> -1, seq |-> 0, fir |-> TRUE, fin |-> TRUE,
